@@ -304,9 +304,12 @@ theorem exSpec_without_internal_filter (acc : Acc) (fl sup : Bool) (t : T) :
     exSpec acc fl false sup t = restrict (leafKeep fl acc) sup t :=
   exSpec_fi_false acc fl sup t
 
-/-- `prune_taxa` for ANY setting of its two flags on ANY tree (taxa on internal nodes included): the post-order strike pass,
-    then the `while` loop, is the recursive strike followed by the recursive specification `restrictA` of "drop taxon-less
-    leaves until none is left", then suppression -/
+/-- `prune_taxa` with arbitrary flags on an arbitrary tree (taxa on internal nodes included).  NOTE what this is: only the
+    SECOND phase is given a specification here — the `while` loop equals the recursive `restrictA hasTaxon` ("drop taxon-less
+    leaves until none is left"), then suppression.  The first phase appears on the right-hand side as the model's own recursive
+    `strike` pass: for `fl = false` or taxa on internal nodes there is no independent specification (the docstring of
+    `prune_taxa` gives none), neither here nor in the harness (correspondence + well-formedness only).  On trees whose taxa sit
+    on leaves the full statement is `prune_eq_restrict` / `prune_internal_flag_eq_restrict`. -/
 theorem prune_flags_eq_spec (P : Nat → Bool) (fl fi sup : Bool) (t : T) :
     pruneTaxa P fl fi sup t = (strike P fl fi t).bind (fun t1 => (restrictA hasTaxon t1).map (supIf sup)) := by
   unfold pruneTaxa
@@ -397,9 +400,12 @@ theorem labels_prune_retain_agree (cs : Bool) (ns : Ns) (gs hs : List String) (s
 
 /-! ### `update_bipartitions=True` -/
 
-/-- pruning / retaining / filtering with `update_bipartitions=True` (any rooting state) = the fresh C01 encoding
-    (`encode_bipartitions` with the caller's suppress flag) of the induced subtree: tree after the encoding's side effects and
-    the (leafset, split) list alike -/
+/-- pruning / retaining / filtering with `update_bipartitions=True`.  NOTE what this is: the model DEFINES the result of these
+    calls as the in-place routine followed by `reencode` (C01's `encode` with the caller's suppress flag), mirroring the code's
+    `self.update_bipartitions(suppress_unifurcations=…)`; the theorem only transports `prune_eq_restrict` & co. through that
+    definition (the re-encoding is applied to the induced subtree).  What the re-encoding does to the induced subtree is stated
+    by `upd_rooted_encoding` (rooted) and `upd_not_rooted`, `collapse_keeps_leafset_drops_one_clade`, `upd_leafsets_any_rooting`
+    (unrooted / undefined rooting); that the code behaves like the model here is the correspondence (all rooting states). -/
 theorem upd_eq_fresh_encoding (rooted : Option Bool) (ns : List Nat) (K : Nat → Bool) (sup : Bool) (t : T) (h : InnerNoTaxon t)
     (hns : ∀ lf ∈ t.leaves, ∀ k, lf.taxon = some k → k ∈ ns) :
     pruneTaxaUpd rooted (fun k => !K k) sup t = (restrict (keepTaxa K) sup t).map (reencode rooted sup) ∧
@@ -472,11 +478,119 @@ theorem extract_node_flags_eq_spec (acc : Acc) (fl fi sup : Bool) (t sub : T) (i
       · exact Or.inr (if_neg hc)
     rcases he with he | he <;> rw [he] <;> rfl
 
+/-- re-encoding a tree that is NOT rooted (`is_rooted` False or None), as `update_bipartitions=True` does after an in-place
+    pruning: the tree becomes the induced subtree with its basal bifurcation collapsed (then suppressed if asked), and the
+    encoding lists exactly the leafsets of that tree, one per node in post-order -/
+theorem upd_not_rooted (rooted : Option Bool) (hr : rooted ≠ some true) (sup : Bool) (r : T) :
+    (reencode rooted sup r).1 = supIf sup r.collapseBasal ∧
+    (reencode rooted sup r).2.map (·.1) = (supIf sup r.collapseBasal).masksPost :=
+  reencode_not_rooted rooted hr sup r
+
+/-- the collapse of the basal bifurcation keeps the tree's leafset and drops at most the clade of the dissolved child:
+    the clade masks of the collapsed tree are a sublist of those of the tree -/
+theorem collapse_keeps_leafset_drops_one_clade (t : T) :
+    t.collapseBasal.mask = t.mask ∧ t.collapseBasal.masksPost.Sublist t.masksPost ∧
+    t.collapseBasal.masksPost.length + 1 ≥ t.masksPost.length := by
+  refine ⟨(collapse_masks t).1, (collapse_masks t).2, ?_⟩
+  obtain ⟨i, x, l, s, cs⟩ := t
+  match cs with
+  | [] => simp [T.collapseBasal]
+  | [a] => simp [T.collapseBasal]
+  | a :: b :: c :: r => simp [T.collapseBasal]
+  | [a, b] =>
+    simp only [T.collapseBasal]
+    obtain ⟨ja, ya, ma, ua, da⟩ := a
+    obtain ⟨jb, yb, mb, ub, db⟩ := b
+    have hpl : ∀ (xs : List T) (z : T), (T.masksPostL (xs ++ [z])).length = (T.masksPostL xs).length + z.masksPost.length := by
+      intro xs z; induction xs with
+      | nil => simp [T.masksPostL]
+      | cons q qs ih => simp [T.masksPostL, ih]; omega
+    by_cases hb : db.length ≥ 2
+    · simp [T.cs, hb, T.masksPost, T.masksPostL, T.withLen]; omega
+    · by_cases ha : da.length ≥ 2
+      · simp [T.cs, hb, ha, T.masksPost, T.masksPostL, T.withLen, hpl]; omega
+      · simp [T.cs, hb, ha]
+
+/-- (a) for the encoding, every rooting state: after `prune_taxa(…, update_bipartitions=True)` the tree's leafset is the
+    restriction of the original leafset, and every leafset listed in `bipartition_encoding` is a non-empty restriction `C ∩ K`
+    of an original clade (on a rooted tree all of them are listed: `upd_rooted_leafsets`; on an unrooted one the clade of the
+    dissolved basal child may be missing: `collapse_keeps_leafset_drops_one_clade`) -/
+theorem upd_leafsets_any_rooting (rooted : Option Bool) (Km : Nat) (sup : Bool) (t : T) (h : InnerNoTaxon t) (r : T)
+    (enc : List (Nat × Int)) (hp : pruneTaxaUpd rooted (fun k => !Km.testBit k) sup t = some (r, enc)) :
+    r.mask = t.mask &&& Km ∧ ∀ m ∈ enc.map (·.1), ∃ c ∈ t.masksPost, m = c &&& Km ∧ m ≠ 0 := by
+  unfold pruneTaxaUpd at hp
+  have e : (fun k => !(!Km.testBit k)) = (fun k => Km.testBit k) := by funext k; simp
+  rw [prune_eq_restrict _ sup t h, e] at hp
+  cases hr : restrict (keepTaxa (fun k => Km.testBit k)) sup t with
+  | none => rw [hr] at hp; cases hp
+  | some r0 =>
+    rw [hr] at hp
+    simp only [Option.map_some, Option.some.injEq] at hp
+    have hm0 := ((restrict_mask Km sup t).1 r0 hr).1
+    by_cases hroot : rooted = some true
+    · subst hroot
+      rw [upd_rooted_encoding _ sup t r0 hr] at hp
+      simp only [Prod.mk.injEq] at hp
+      refine ⟨hp.1 ▸ hm0, fun m hm => ?_⟩
+      rw [← hp.2, List.map_map] at hm
+      have : (fun x : Nat × Int => x.1) ∘ (fun (m : Nat) => (m, (m : Int))) = id := by funext m; rfl
+      rw [this, List.map_id] at hm
+      exact (restrict_clades Km sup t r0 hr m).mp hm
+    · obtain ⟨h1, h2⟩ := upd_not_rooted rooted hroot sup r0
+      have hr1 : r = (reencode rooted sup r0).1 := by rw [hp]
+      have he1 : enc = (reencode rooted sup r0).2 := by rw [hp]
+      refine ⟨?_, fun m hm => ?_⟩
+      · rw [hr1, h1, supIf_mask, (collapse_masks r0).1, hm0]
+      · rw [he1, h2] at hm
+        have hm' := (supIf_masks sup _ m).mp hm
+        exact (restrict_clades Km sup t r0 hr m).mp ((collapse_masks r0).2.subset hm')
+
+/-- a filter that accepts every node that has children makes the internal-node flag irrelevant: the two-flag specification
+    is the induced subtree -/
+theorem exSpec_eq_restrict_of_accepting_inner (acc : Acc) (fl fi sup : Bool) (t : T) (h : AccInner acc t) :
+    exSpec acc fl fi sup t = restrict (leafKeep fl acc) sup t :=
+  exSpec_accInner acc fl fi sup t h
+
+/-- in particular the `extract_tree_with(out)_taxa(_labels)` filter ("taxon-less nodes pass") on a tree whose taxa sit on
+    leaves: extraction with `is_apply_filter_to_internal_nodes=True` still yields the induced subtree -/
+theorem extract_wrapper_filter_internal_flag (K : Nat → Bool) (fi sup : Bool) (t : T) (h : InnerNoTaxon t) (hnd : (ids t).Nodup) :
+    (extractTree (taxonFilter K) true fi sup t).toOption = restrict (taxonFilter K) sup t := by
+  rw [extract_flags_eq_spec _ true fi sup t hnd, exSpec_eq_restrict_of_accepting_inner _ true fi sup t (accInner_taxonFilter K t h)]
+  have e : leafKeep true (taxonFilter K) = taxonFilter K := by funext i x; simp [leafKeep]
+  rw [e]
+  cases hr : restrict (taxonFilter K) sup t with
+  | some r => rfl
+  | none =>
+    obtain ⟨j, x, l, s, cs⟩ := t
+    have he : exErr (taxonFilter K) true fi (T.node j x l s cs) = .valueError ∨ exErr (taxonFilter K) true fi (T.node j x l s cs) = .seedDeletion := by
+      simp only [exErr]
+      by_cases hc : ((if cs.isEmpty then true else fi) && !taxonFilter K j x) = true
+      · exact Or.inl (if_pos hc)
+      · exact Or.inr (if_neg hc)
+    rcases he with he | he <;> simp only [he] <;> rfl
+
 /-! ### well-formed lengths are not an assumption about driver inputs -/
 
 /-- every tree the driver parses from a protocol line has well-formed lengths (non-zero denominators) -/
 theorem parsed_lengths_wf (toks : List String) (t : T) (rest : List String) (h : parseTree toks = some (t, rest)) : LensWF t :=
   parseTree_lensWF toks t rest h
+
+/-- the two side conditions of the theorems above hold for every tree a driver op works on — `LensWF` because the parser only
+    produces such lengths (derived), `(ids t).Nodup` because the driver's input guard `checkedTree` refuses a tree that names a node
+    id twice (enforced at the boundary, NOT derived from `parseTree`; the harness numbers nodes in pre-order) -/
+theorem checked_input_ok (toks : List String) (t : T) (rest : List String) (h : checkedTree toks = some (t, rest)) :
+    (ids t).Nodup ∧ LensWF t := by
+  unfold checkedTree at h
+  cases hp : parseTree toks with
+  | none => rw [hp] at h; cases h
+  | some p =>
+    obtain ⟨t', rest'⟩ := p
+    rw [hp] at h
+    simp only at h
+    by_cases hn : (ids t').Nodup
+    · simp only [hn, if_true, Option.some.injEq, Prod.mk.injEq] at h
+      exact ⟨h.1 ▸ hn, h.1 ▸ parseTree_lensWF toks t' rest' hp⟩
+    · simp [hn] at h
 
 /-- and so has every induced subtree of a tree with well-formed lengths -/
 theorem restrict_lengths_wf (keep : Acc) (sup : Bool) (t r : T) (hw : LensWF t) (hr : restrict keep sup t = some r) : LensWF r :=
@@ -518,6 +632,10 @@ example : (restrictA (fun i _ => i == 4 || i == 2) demo).map T.render = some "(0
 example : (filterLeaves (fun i _ => i == 4 || i == 2) false false demo).map (·.2) = some [3, 5, 7, 8] := by decide
 example : (match extractTree (fun _ _ => false) true false true demo with | .seedDeletion => true | _ => false) = true := by decide
 example : (allDists demo).length = 10 := by decide
+example : ((reencode (some false) true demo).1.render, (reencode (some false) true demo).2.map (·.1))
+    = ("(0 - 9 (1 - 11 (2 0 1) (3 1 2)) (5 2 4) (6 - 7 (7 3 5) (8 4 6)))", [1, 2, 3, 4, 8, 16, 24, 31]) := by decide
+example : (demo.collapseBasal.masksPost.length, demo.masksPost.length) = (8, 9) := by decide
+example : AccInner (taxonFilter (fun k => k == 1)) demo := by simp [demo, AccInner, AccInnerL, taxonFilter]
 example : (pruneTaxaUpd (some true) (fun k => !(k == 1 || k == 2)) true demo).map (fun r => (r.1.render, r.2))
     = some ("(0 - 9 (3 1 5) (5 2 12))", [(2, 2), (4, 4), (6, 6)]) := by decide
 example : (exSpec (fun i _ => i != 4) true true true demo).map T.render = some "(1 - 12 (2 0 1) (3 1 2))" := by decide
